@@ -182,9 +182,22 @@ def r10_12(ctx):
             ok_val = args[2] == ("const", 1)
             if ok_key and ok_val:
                 ins.append(bb)
+        elif k == "add_board_to_draw_table":
+            # on a table that is empty at this point (cleared, nothing recorded since) `add(board)` stores
+            # 0 + 1 = 1 (R10.4): the same record as insert(board.zobrist_key, 1)
+            args = pex.call_args(bb)
+            ok_board = pb.local_ty(root_local(strip_refs(args[1])) or 0) == "board::BoardState"
+            others = [p for p in populate if p != bb]
+            if inner_clears:
+                empty = (0 in inner_clears or not pb.reaches(0, bb, removed_nodes=inner_clears)) and \
+                    all(not pb.reaches(p, bb, removed_nodes=inner_clears) for p in others)
+            else:
+                empty = cleared_in_arm and all(not pb.reaches(p, bb) for p in others)
+            if ok_board and empty and not pb.reaches(bb, bb, removed_nodes=inner_clears):
+                ins.append(bb)
     ok = bool(ins) and (0 in ins or all(not pb.reaches(0, r, removed_nodes=set(ins)) for r in rets)) and rets
     ctx.ob("play_out_position:start-position-recorded", bool(ok), pb.where(pb.term_loc(ins[0])) if ins else pb.file,
-           "every path to return records the start position with count 1 (insert(board.zobrist_key, 1)); %s" % (
+           "every path to return records the start position with count 1 (insert(board.zobrist_key, 1), or add(board) on the just-cleared table); %s" % (
                "holds" if ok else "NOT on all paths: some `position` commands leave the record without their own start position"))
     # not inside the move loop
     loops = pb.loops()
